@@ -6,7 +6,7 @@ open Humphrey Humphrey.Driver Humphrey.Driver.HttpD Humphrey.Http Humphrey.IO
 def parseChunks (env : Env) (chunks : List Bytes) : Outcome ReqErr (Request × Reader) :=
   parseRequest readerSource env ⟨[], chunks⟩
 
-def dispatch (fn : String) (args : List String) (impl : String) : Option Verdict :=
+def dispatchSync (fn : String) (args : List String) (impl : String) : Option Verdict :=
   match fn, args with
   | "req_parse", [bytes, cuts, peer, oracle, expect] =>
     match unhex bytes, peer.splitOn "|" with
@@ -33,5 +33,9 @@ def dispatch (fn : String) (args : List String) (impl : String) : Option Verdict
       some { model := model, spec := spec }
     | _, _ => some { model := "BADARGS" }
   | _, _ => none
+
+/-- `req_parse_tokio`: the tokio twin of the parser must behave exactly like the threaded one. -/
+def dispatch (fn : String) (args : List String) (impl : String) : Option Verdict :=
+  if fn == "req_parse_tokio" then dispatchSync "req_parse" args impl else dispatchSync fn args impl
 
 end Humphrey.Driver.C02
